@@ -60,3 +60,67 @@ func (v *Verifier) summaryHook(callerFC *FuncContract) func(ex *Executor, st *St
 		return one(st, res), true
 	}
 }
+
+// ghostHook inserts Ghost.Set events after the events of fn's execution that
+// match one of fn's ghost clauses.
+func (v *Verifier) ghostHook() func(ex *Executor, fn *ssa.Function, args []Value, st *State, from int) {
+	return func(ex *Executor, fn *ssa.Function, args []Value, st *State, from int) {
+		fc := v.CS.Funcs[v.Prog.funcKey(fn)]
+		if fc == nil || len(fc.Ghosts) == 0 {
+			return
+		}
+		params := map[string]cval{}
+		for i, p := range fn.Params {
+			if i < len(args) {
+				params[p.Name()] = cval{V: args[i], T: p.Type()}
+			}
+		}
+		var out []*Event
+		out = append(out, st.Trace[:from]...)
+		for i := from; i < len(st.Trace); i++ {
+			e := st.Trace[i]
+			out = append(out, e)
+			if e.Kind == "Ghost.Set" {
+				continue
+			}
+			for _, g := range fc.Ghosts {
+				if !kindMatches(g.Pattern.S, e.Kind) {
+					continue
+				}
+				env := v.newEnv(ex, fn, fc, st, params)
+				env.scratch = st
+				cond, val, err := env.ghostMatch(g, e)
+				if err != nil {
+					ex.LoopErrors = append(ex.LoopErrors, fmt.Sprintf("ghost %s (line %d): %v", g.Name, g.Line, err))
+					continue
+				}
+				if cond == TFalse {
+					continue
+				}
+				out = append(out, &Event{Kind: "Ghost.Set", Args: []Value{StrLit(g.Name), val, cond}, Heap: e.Heap, Pos: e.Pos})
+			}
+		}
+		st.Trace = out
+	}
+}
+
+func (env *CEnv) ghostMatch(g *GhostClause, e *Event) (cond *Term, val Value, err error) {
+	defer func() {
+		if r := recover(); r != nil {
+			if ee, ok := r.(*evalError); ok {
+				err = ee
+				return
+			}
+			panic(r)
+		}
+	}()
+	cond = TTrue
+	if len(g.Pattern.Kids) > len(e.Args) {
+		cfail("pattern has more arguments than event %s", e.Kind)
+	}
+	for k, pat := range g.Pattern.Kids {
+		cond = And(cond, env.match(pat, e.Args[k], e.Heap))
+	}
+	v := env.eval(g.Value)
+	return cond, v.V, nil
+}
